@@ -1580,6 +1580,160 @@ impl<'a, 'b> Gen<'a, 'b> {
         self.vars.push(name);
     }
 
+    /// module_path_expression (A.8.3): constants, identifiers, concatenations, unary / binary module path
+    /// operators and the conditional operator
+    pub fn module_path_expr(&mut self, depth: usize) {
+        if depth == 0 || self.t.chance(1, 3) {
+            match self.t.below(3) {
+                0 => {
+                    let s = *self.t.pick(&["0", "1", "1'b0", "2'b10"]);
+                    self.num(s);
+                }
+                _ => self.var_ref_ident_only(),
+            }
+            return;
+        }
+        match self.t.weighted(&[3, 2, 3, 1, 1]) {
+            0 => {
+                self.module_path_expr(depth - 1);
+                let op = *self.t.pick(&["==", "!=", "&&", "||", "&", "|", "^", "^~", "~^"]);
+                self.sym(op);
+                self.module_path_expr(depth - 1);
+            }
+            1 => {
+                let op = *self.t.pick(&["!", "~", "&", "~&", "|", "~|", "^", "~^", "^~"]);
+                self.sym(op);
+                self.var_ref_ident_only();
+            }
+            2 => {
+                self.tag("module-path-conditional");
+                self.module_path_expr(depth - 1);
+                self.sym("?");
+                self.module_path_expr(depth - 1);
+                self.sym(":");
+                self.module_path_expr(depth - 1);
+            }
+            3 => {
+                self.sym("(");
+                self.module_path_expr(depth - 1);
+                self.sym(")");
+            }
+            _ => {
+                self.sym("{");
+                self.var_ref_ident_only();
+                self.sym(",");
+                self.var_ref_ident_only();
+                self.sym("}");
+            }
+        }
+    }
+
+    fn path_delay_value(&mut self) {
+        if self.t.flip() {
+            self.small_const();
+        } else {
+            self.sym("(");
+            self.small_const();
+            self.sym(",");
+            self.small_const();
+            if self.t.chance(1, 3) {
+                self.sym(",");
+                self.small_const();
+            }
+            self.sym(")");
+        }
+    }
+
+    /// specify block (A.7): parallel / full / edge-sensitive / state-dependent paths, specparams, pulsestyle
+    pub fn specify_block(&mut self) {
+        self.tag("specify");
+        self.kw("specify");
+        let n = 1 + self.t.below(4);
+        for _ in 0..n {
+            match self.t.weighted(&[4, 3, 3, 2, 1, 1]) {
+                0 => {
+                    // simple parallel path
+                    self.sym("(");
+                    self.var_ref_ident_only();
+                    if self.t.chance(1, 3) {
+                        let p = *self.t.pick(&["+", "-"]);
+                        self.sym(p);
+                    }
+                    self.sym("=>");
+                    self.var_ref_ident_only();
+                    self.sym(")");
+                    self.sym("=");
+                    self.path_delay_value();
+                    self.sym(";");
+                }
+                1 => {
+                    // simple full path
+                    self.sym("(");
+                    self.var_ref_ident_only();
+                    if self.t.flip() {
+                        self.sym(",");
+                        self.var_ref_ident_only();
+                    }
+                    self.sym("*>");
+                    self.var_ref_ident_only();
+                    self.sym(")");
+                    self.sym("=");
+                    self.path_delay_value();
+                    self.sym(";");
+                }
+                2 => {
+                    // state-dependent path
+                    self.tag("specify-state-dependent");
+                    if self.t.chance(1, 5) {
+                        self.kw("ifnone");
+                    } else {
+                        self.kw("if");
+                        self.sym("(");
+                        self.module_path_expr(2);
+                        self.sym(")");
+                    }
+                    self.sym("(");
+                    self.var_ref_ident_only();
+                    let op = *self.t.pick(&["=>", "*>"]);
+                    self.sym(op);
+                    self.var_ref_ident_only();
+                    self.sym(")");
+                    self.sym("=");
+                    self.path_delay_value();
+                    self.sym(";");
+                }
+                3 => {
+                    // edge-sensitive path
+                    self.sym("(");
+                    let e = *self.t.pick(&["posedge", "negedge"]);
+                    self.kw(e);
+                    self.var_ref_ident_only();
+                    self.sym("=>");
+                    self.sym("(");
+                    self.var_ref_ident_only();
+                    let p = *self.t.pick(&["+:", "-:", ":"]);
+                    self.sym(p);
+                    self.var_ref_ident_only();
+                    self.sym(")");
+                    self.sym(")");
+                    self.sym("=");
+                    self.path_delay_value();
+                    self.sym(";");
+                }
+                4 => {
+                    self.specparam_declaration();
+                }
+                _ => {
+                    let k = *self.t.pick(&["pulsestyle_onevent", "pulsestyle_ondetect", "showcancelled", "noshowcancelled"]);
+                    self.kw(k);
+                    self.var_ref_ident_only();
+                    self.sym(";");
+                }
+            }
+        }
+        self.kw("endspecify");
+    }
+
     /// specparam_declaration is a non_port_module_item: module body only, never inside generate constructs
     pub fn specparam_declaration(&mut self) {
         self.tag("specparam");
